@@ -2,7 +2,7 @@
 C17 — every entry below the output directory that is reachable through real directories (and is
 not hidden by a secret mount or a mount point) is visited by a scan that succeeds.
 -/
-import ArvVerif.Proofs.C17_Term
+import ArvVerif.Proofs.C17_Mono
 namespace ArvVerif.C17
 
 theorem mem_of_get (h : Host) (p : Path) (n : Node) (hp : p ≠ []) (hg : h.get p = some n) : (p, n) ∈ h := by
@@ -20,21 +20,14 @@ theorem children_of_mem (h : Host) (p : Path) (c : Name) (n : Node) (hm : (p ++ 
   simp only [List.mem_filterMap]
   exact ⟨(p ++ [c], n), hm, by simp⟩
 
-theorem bind_eq_ok {α β : Type} (r : Res α) (f : α → Res β) (b : β) (hb : r.bind f = .ok b) :
-    ∃ a, r = .ok a ∧ f a = .ok b := by
-  cases r with
-  | ok a => exact ⟨a, rfl, hb⟩
-  | err e => simp [Res.bind] at hb
-  | unmodelled => simp [Res.bind] at hb
-  | fuel => simp [Res.bind] at hb
-
 /-- a successful loop over directory entries has made a successful call for every entry it does
 not skip -/
 theorem children_ok (h : Host) (cfg : Cfg) (dest src : Path) (n : Nat) :
     ∀ (names : List Name) (fuel : Nat) (st st' : Plan),
       walk h cfg fuel (.children dest src n names) st = .ok st' →
       ∀ c ∈ names, (src ++ [c]) ∉ cfg.secrets → skipMount cfg (src ++ [c]) = false →
-        ∃ fuel' st1 st2, walk h cfg fuel' (.host (dest ++ [c]) (src ++ [c]) n false) st1 = .ok st2 := by
+        ∃ fuel' st1 st2, walk h cfg fuel' (.host (dest ++ [c]) (src ++ [c]) n false) st1 = .ok st2 ∧
+          st2.le st' := by
   intro names
   induction names with
   | nil => intro fuel st st' _ c hc; cases hc
@@ -56,7 +49,7 @@ theorem children_ok (h : Host) (cfg : Cfg) (dest src : Path) (n : Nat) :
           · exact ih fuel st st' hw c hm hsec hskip
         · obtain ⟨a, ha, hrest⟩ := bind_eq_ok _ _ _ hw
           rcases List.mem_cons.mp hc with rfl | hm
-          · exact ⟨fuel, st, a, ha⟩
+          · exact ⟨fuel, st, a, ha, walk_mono h cfg _ _ _ _ hrest⟩
           · exact ih fuel a st' hrest c hm hsec hskip
 
 /-- how a child of a resolved directory resolves -/
@@ -76,7 +69,8 @@ theorem host_step (h : Host) (cfg : Cfg) (wf : HostWF h) (dest src p : Path) (n 
     (hd : namei h [] (hostPath cfg src) 0 = .found p .dir)
     (hg : h.get (p ++ [c]) = some node)
     (hsec : (src ++ [c]) ∉ cfg.secrets) (hskip : skipMount cfg (src ++ [c]) = false) :
-    ∃ fuel' st1 st2, walk h cfg fuel' (.host (dest ++ [c]) (src ++ [c]) n false) st1 = .ok st2 := by
+    ∃ fuel' st1 st2, walk h cfg fuel' (.host (dest ++ [c]) (src ++ [c]) n false) st1 = .ok st2 ∧
+      st2.le st' := by
   cases fuel with
   | zero => rw [walk] at hw; cases hw
   | succ fuel =>
@@ -103,7 +97,7 @@ theorem reach (h : Host) (cfg : Cfg) (wf : HostWF h) :
       ∀ node, rel ≠ [] → h.get (p ++ rel) = some node →
       ∃ fuel' inc' st1 st2,
         walk h cfg fuel' (.host (dest ++ rel) (src ++ rel) n inc') st1 = .ok st2 ∧
-        namei h [] (hostPath cfg (src ++ rel)) 0 = .found (p ++ rel) node := by
+        namei h [] (hostPath cfg (src ++ rel)) 0 = .found (p ++ rel) node ∧ st2.le st' := by
   intro rel
   induction rel with
   | nil => intro _ _ _ _ _ _ _ _ _ _ _ _ _ _ hne; exact absurd rfl hne
@@ -114,8 +108,8 @@ theorem reach (h : Host) (cfg : Cfg) (wf : HostWF h) :
       have hv := hvis 1 (by omega) (by simp)
       simp only [List.take_succ_cons, List.take_zero] at hv
       have hcl : CleanName c := wf.clean _ (mem_of_get h _ _ (by simp) hg) c (by simp)
-      obtain ⟨f', s1, s2, hcall⟩ := host_step h cfg wf dest src p n fuel inc st st' c node hw hd hg hv.1 hv.2
-      exact ⟨f', false, s1, s2, hcall, namei_child h cfg src p c node hpre hd hcl hg⟩
+      obtain ⟨f', s1, s2, hcall, hle⟩ := host_step h cfg wf dest src p n fuel inc st st' c node hw hd hg hv.1 hv.2
+      exact ⟨f', false, s1, s2, hcall, namei_child h cfg src p c node hpre hd hcl hg, hle⟩
     · have hlen : 1 < (c :: rest).length := by
         cases rest with
         | nil => exact absurd rfl hrest
@@ -125,7 +119,7 @@ theorem reach (h : Host) (cfg : Cfg) (wf : HostWF h) :
       have hv := hvis 1 (by omega) (by simp)
       simp only [List.take_succ_cons, List.take_zero] at hv
       have hcl : CleanName c := wf.clean _ (mem_of_get h _ _ (by simp) hdir1) c (by simp)
-      obtain ⟨f', s1, s2, hcall⟩ := host_step h cfg wf dest src p n fuel inc st st' c .dir hw hd hdir1 hv.1 hv.2
+      obtain ⟨f', s1, s2, hcall, hle⟩ := host_step h cfg wf dest src p n fuel inc st st' c .dir hw hd hdir1 hv.1 hv.2
       have hd' := namei_child h cfg src p c .dir hpre hd hcl hdir1
       have := ih (dest ++ [c]) (src ++ [c]) (p ++ [c]) n f' false s1 s2 hcall
         (isPrefixOf_append_right _ _ _ hpre) hd'
@@ -138,6 +132,8 @@ theorem reach (h : Host) (cfg : Cfg) (wf : HostWF h) :
           have := hvis (k + 1) (by omega) (by simp at hk ⊢; omega)
           simpa [List.take_succ_cons, List.append_assoc] using this)
         node hrest (by simpa [List.append_assoc] using hg)
-      simpa [List.append_assoc] using this
+      obtain ⟨f2, i2, t1, t2, hc2, hn2, hle2⟩ := this
+      exact ⟨f2, i2, t1, t2, by simpa [List.append_assoc] using hc2, by simpa [List.append_assoc] using hn2,
+        Plan.le_trans hle2 hle⟩
 
 end ArvVerif.C17
